@@ -35,13 +35,21 @@ THEOREMS = [
     "reset_caches_irrelevant_par",
     "restored_cache_valid",
     "cache_valid_preserved",
+    "cache_fill_spec",
+    "cache_valid_new",
+    "cache_valid_after_add",
+    "cache_valid_reachable",
+    "restore_continues_reachable",
 ]
 
 RULE = ("field maps: regenerated from /repo/src on every run (all structs deriving Serialize, all serde attributes, the "
         "snapshot/restore conversions, the manual Clone impls); theorems re-proved against them.  Lock-step (Rust vs Rust, real "
         "code): random small Ising models (2..6/8 spins; chain, ring, star+edge, complete; J, Gamma, h, beta dyadic; initial "
         "cutoff 1..4n; the first 8 configurations enumerate RVB x heat-bath x h!=0), generic Qmc with/without loop updates, "
-        "tempering containers of 2..6 replicas with equal or different Hamiltonians; a snapshot in both forms at EVERY step "
+        "tempering containers of 2..6 replicas with equal or different Hamiltonians, both filled before the first step and GROWING "
+        "(add_qmc_stepper interleaved with tempering steps: 1 or 2 replicas before the first step, every later replica added after "
+        "1..3 steps, final sizes 3,4,5,6, snapshot after every op of the history incl. right after an add and right after the step "
+        "following an add, then the rest of the history and >= 12 further tempering steps); a snapshot in both forms at EVERY step "
         "index k = 0..K, then m further steps on original / with-RNG copy / RNG-less copy / a copy that is snapshot-restored "
         "after every step, comparing state, operator string, n, cutoff, energy bits, rvb rate bits, verify() and the full JSON "
         "snapshot after each step.  Non-trivial = at least one operator present at the snapshot point; distinct = distinct "
@@ -75,7 +83,26 @@ EXPECTED_NONVERBATIM = {
     ("SerializeTemperingContainer.restore", "rng"),
     ("SerializeTemperingContainer.restore", "graph_ham_eq_a"),
     ("SerializeTemperingContainer.restore", "graph_ham_eq_b"),
+    ("TemperingContainer.new", "rng"),
+    ("TemperingContainer.new", "graph_ham_eq_a"),
+    ("TemperingContainer.new", "graph_ham_eq_b"),
+    ("TemperingContainer.new", "graphs"),
+    ("TemperingContainer.new", "total_swaps"),
 }
+
+# cache maintenance of the tempering container as the unchanged tree has it (regenerated statements); a different
+# text is named first in the failure message
+EXPECTED_STATEMENTS = {
+    "TemperingContainer.add_qmc_stepper": "statements(let tc := { tc with graph_ham_eq_a := none } | let tc := { tc with graph_ham_eq_b := none } | let tc := { tc with graphs := tc.graphs ++ [(q, beta)] })",
+    "TemperingContainer.make_ham_equalities": "statements(let tc := { tc with graph_ham_eq_a := some (eqsFirst tc.graphs) } | let tc := { tc with graph_ham_eq_b := some (eqsSecond tc.graphs) })",
+    "TemperingContainer.tempering_step": "guard((tc.graph_ham_eq_a.isNone || tc.graph_ham_eq_b.isNone))",
+}
+
+
+def unexpected(r):
+    if r["conversion"] in EXPECTED_STATEMENTS:
+        return r["kind"] != EXPECTED_STATEMENTS[r["conversion"]]
+    return r["kind"] != "copied" and (r["conversion"], r["field"]) not in EXPECTED_NONVERBATIM
 
 
 def main(ck):
@@ -91,7 +118,7 @@ def main(ck):
             ck.audit("QmcProps.C14", ["Qmc.C14." + t for t in THEOREMS])
         else:
             # name the offending field(s): everything that is not a verbatim copy and not expected
-            rows = [r for r in rep.get("fields", []) if r["kind"] != "copied" and (r["conversion"], r["field"]) not in EXPECTED_NONVERBATIM]
+            rows = [r for r in rep.get("fields", []) if unexpected(r)]
             detail = "; ".join("%s.%s: %s [%s]" % (r["conversion"], r["field"], r["kind"], r["source"]) for r in rows) or "no unexpected field mapping; see the lake output"
             short = ", ".join("%s.%s %s" % (r["conversion"], r["field"], r["kind"].split("(")[0]) for r in rows[:4]) or "see lake output"
             print("field maps: proofs against the regenerated Generated/Fields.lean fail; offending field(s): " + detail)
